@@ -154,8 +154,7 @@ template <typename D> struct Prog {
       bool unrep = false;
       for (int i = 0; i < m; ++i) { RCon rc = gen_con(t, n, wit, false, t.chance(10)); if (unrepresentable(rc)) unrep = true; c.log << (i ? ", " : "") << str(rc); ph.add_constraint(to_ppl(rc)); pm.add(to_refcon(rc)); }
       int cx = (int) t.range(0, 2);
-      // KF-C03-6: Box(C_Polyhedron, non-ANY complexity) throws std::length_error when the source polyhedron is empty
-      if (TR::kind == 0 && cx != 0 && kf("KF-C03-6")) { bool bad = ref::is_empty(pm); if (bad) { c.excluded("KF-C03-6"); cx = 0; } }
+      // (former KF-C03-6, repaired: Box(C_Polyhedron, non-ANY complexity) threw std::length_error for a trivially false equality)
       (void) unrep;
       if (float_box() && cx != 0 && kf("KF-C03-10")) { c.excluded("KF-C03-10"); cx = 0; }
       Complexity_Class cc = cx == 0 ? ANY_COMPLEXITY : cx == 1 ? SIMPLEX_COMPLEXITY : POLYNOMIAL_COMPLEXITY;
